@@ -153,6 +153,18 @@ func runSszDiff(outDir string, seed int64, tier string) {
 			idxs = append(idxs, rng.Uint64()>>uint(rng.Intn(64)))
 		}
 	}
+	// the function is pure: the same index gives the same root whatever was asked before. Sequences that would collide in any
+	// table keyed by the low bits of the index (i, i+2^k, i again, …), and every special index asked a second time at the end
+	for _, k := range []uint{4, 8, 10, 12, 16, 20, 24, 32, 48} {
+		for j := 0; j < 3; j++ {
+			i := uint64(rng.Intn(1 << 20))
+			if j == 0 {
+				i = 0
+			}
+			idxs = append(idxs, i, i+1<<k, i, i+3<<k, i+1<<k, i)
+		}
+	}
+	idxs = append(idxs, 0, 1, 65536, 1<<32, 52694)
 	seenRoots := map[string]bool{}
 	for _, idx := range idxs {
 		r, err := wc_rotation.GetSigningRoot(idx)
